@@ -2,7 +2,7 @@
    payload bytes beyond the end read as 0.  They agree with the Go code on
    every message whose payload is long enough for the bytes Go indexes
    ([rmsg_wf]); shorter payloads make Go panic and belong to C05. *)
-From Lal Require Import Common.LBytes.
+From Lal Require Import Common.LBytes Common.Res Rtmp.RtmpAmf0 Rtmp.RtmpMetadata.
 Open Scope N_scope.
 
 Record rmsg := mk_rmsg { rm_type : N; rm_ts : N; rm_payload : bytes }.
@@ -49,31 +49,14 @@ Definition rmsg_wfb (m : rmsg) : bool :=
   if rm_type m =? type_metadata then true
   else Nat.leb 5 (length (rm_payload m)).
 
-(* "@setDataFrame" as an AMF0 string: 02 00 0d + 13 characters *)
-Definition sdf_prefix : bytes :=
-  [2; 0; 13; 64; 115; 101; 116; 68; 97; 116; 97; 70; 114; 97; 109; 101].
-
-Fixpoint bytes_eqb (a b : bytes) : bool :=
-  match a, b with
-  | [], [] => true
-  | x :: a', y :: b' => (x =? y) && bytes_eqb a' b'
-  | _, _ => false
-  end.
-
-Definition has_sdf_prefix (p : bytes) : bool := bytes_eqb (firstn 16 p) sdf_prefix.
-
-(* Amf0.ReadString succeeds on b: marker 2, 2-byte length, enough bytes *)
-Definition amf_string_ok (p : bytes) : bool :=
-  match p with
-  | 2 :: h :: l :: rest => (h * 256 + l) <=? lenN rest
-  | _ => false
-  end.
-
-(* rtmp.MetadataEnsureWithoutSdf / MetadataEnsureWithSdf (on error: unchanged) *)
+(* rtmp.MetadataEnsureWithoutSdf / MetadataEnsureWithSdf as LazyRtmpChunkDivider /
+   LazyRtmpMsg2FlvTag use them: the error is ignored and the (possibly
+   unchanged) bytes are taken.  The functions are the C18 model
+   (Rtmp/RtmpMetadata.v), which never panics (c18_sdf). *)
 Definition metadata_without_sdf (p : bytes) : bytes :=
-  if amf_string_ok p && has_sdf_prefix p then skipn 16 p else p.
+  match metadata_ensure_without_sdf p with Ok (b, _) => b | _ => p end.
 Definition metadata_with_sdf (p : bytes) : bytes :=
-  if amf_string_ok p && negb (has_sdf_prefix p) then sdf_prefix ++ p else p.
+  match metadata_ensure_with_sdf p with Ok (b, _) => b | _ => p end.
 
 (* length of rtmp.Message2Chunks output for the default header built by
    remux.MakeDefaultRtmpHeader (csid 5/6/7: 1-byte basic header; fmt 0 then
